@@ -187,6 +187,13 @@ func oneLoopRun(r *Rng, out *AreaOut, idx int) (string, string, bool, error) {
 	if script {
 		K = 70
 	}
+	// a large fleet: a dozen peers' snapshots become ready in the same pass (more than the loop loads in a row
+	// when it has local changes pending)
+	burst := !script && r.Chance(7)
+	burstDone := false
+	if burst {
+		K, quiet = 120, 90
+	}
 	var acts []string
 	var writes []appWrite
 	remoteMax := map[string]uint64{}
@@ -294,7 +301,7 @@ func oneLoopRun(r *Rng, out *AreaOut, idx int) (string, string, bool, error) {
 				}
 			}
 			if yi <= K {
-				if !script && yi <= K-quiet {
+				if !script && yi <= K-quiet && !burstDone { // after the burst: nothing but the loads themselves
 					// ---- application commit ----
 					pa := 10
 					switch p {
@@ -375,8 +382,16 @@ func oneLoopRun(r *Rng, out *AreaOut, idx int) (string, string, bool, error) {
 							nInjectNow = 2 // two peers' snapshots ready in the same pass
 						}
 					}
+					if burst && !burstDone && yi >= 3 && p == "loop.sleep" && !pendingCause {
+						nInjectNow, burstDone = 12, true
+						hist(out.Hist, "twelve-snapshots-ready-in-one-pass")
+					}
 					for q := 0; q < nInjectNow; q++ {
-						sds, fmtv := genRemoteDBIs(r, clock)
+						gclock := clock
+						if nInjectNow == 12 {
+							gclock = clock + 10000*uint64(q+1) // every snapshot of the burst carries something newer than the one before
+						}
+						sds, fmtv := genRemoteDBIs(r, gclock)
 						for _, d := range sds {
 							for _, e := range d.Entries {
 								k := d.Name + "|" + string(e.Key)
